@@ -27,11 +27,20 @@ META = {
             "Tie: bit-exact binary64 run vs the C. The fuzzy-tuned controller delegates to the same step functions after its gain "
             "update (model coq/C13/FuzzyDefs.v, gain theorems in Properties_C13.v); its run/pos/inc/zero histories are executed "
             "here too, bit for bit against that model, with every combination of present and NULL rule tables and all operator "
-            "enumerators, and judged by the oracle (limits, finiteness, gains).",
+            "enumerators, and judged by the oracle (limits, finiteness, gains). "
+            "Glue around the modelled core (differential tests, not theorems): every C++ member function of a_pid, a_pid_neuro and "
+            "a_pid_fuzzy (22, the list is read from the headers on every run) is called next to the C function it forwards to on "
+            "byte-identical objects and all fields, returned values and caller-owned arrays are compared bit for bit; and one driver "
+            "generic in a_real is built as float, double and long double with ASan+UBSan and must print exactly the values of the "
+            "documented equations on histories whose every intermediate is exactly representable in binary32 (tables and the fuzzy "
+            "scratch block of the documented size in one pool with guard bytes).",
     "note": "Trusted: Coq kernel/vm_compute with primitive floats; real-number axioms listed by Print Assumptions; the 'same "
             "term, different NumOps instance' argument; hand transcription coq/C12/PidDefs.v validated bit for bit on the "
             "generated histories only. 'State stays finite' is proved as definedness over R plus the NaN-to-outmin behaviour of "
-            "A_SAT; overflow to infinity for huge magnitudes is excluded by the property's precondition and not modelled.",
+            "A_SAT; overflow to infinity for huge magnitudes is excluded by the property's precondition and not modelled. "
+            "The glue runs (tools/vglue.py, harness/glue/) are differential tests on generated inputs, not theorems: the C API built as "
+            "double is their reference for the C++ members, the documented equations evaluated with exact fractions for the float and "
+            "long double builds; neither configuration is modelled in Rocq.",
     "technique": "Rocq proof over R (induction over histories, coupling invariant, nra/lra case analysis of the clamp) + model regenerated from src/pid*.c by a translator and re-tied by conversion on every run + bit-exact primitive-float model vs C correspondence",
 }
 
@@ -224,3 +233,4 @@ def run(ctx):
     ctx.cov["correspondence_mismatches"] = nd
     for c in cases[:: max(1, len(cases) // 4)][:4]:
         ctx.sample({"case": c[0][:200], "model_expr": c[1][:200]})
+    __import__("vglue").glue(ctx, "C12")   # glue around the modelled core: C++ member wrappers + float / long double builds (differential tests, tools/vglue.py)
